@@ -58,7 +58,10 @@ Passive(e) == e.a \in {"Skip", "Blocked", "Quiet", "Timeout"}
 Bind(e, m) ==
   /\ segs' = e.st.segs /\ files' = ToSet(e.st.files) /\ listed' = e.st.listed /\ active' = e.st.active
   /\ hw' = e.st.hw /\ epochs' = e.st.epochs /\ rd' = e.st.rd /\ obs' = e.st.obs
-  /\ app' = [m.n.app EXCEPT !.pc = e.st.app.pc]
+  \* the batch of the call in flight is what the driver passed, whatever the model thinks of the call
+  /\ app' = [m.n.app EXCEPT !.pc = e.st.app.pc,
+                            !.batch = IF e.st.app.pc = "idle" THEN <<>>
+                                      ELSE IF e.a = "AppBegin" THEN e.args.batch ELSE app.batch]
   /\ trn' = [m.n.trn EXCEPT !.pc = e.st.trn.pc]
   /\ cln' = [m.n.cln EXCEPT !.pc = e.st.cln.pc]
   /\ ever' = ever \cup UNION {Range(e.st.segs[k].recs) : k \in 1..Len(e.st.segs)}
